@@ -129,6 +129,17 @@ class Whole(Stateful):
             self._model = content
 
 
+class Touchy(Stateful):
+    """A stateful actor on which being handed an EMPTY state is visible (it forgets): the instruction layer never hands an
+    empty state to an actor - 'no state' means nothing is set - and every backend has to agree on that."""
+
+    def set_state(self, state):
+        if not state:
+            self._model = term('reset')
+            return
+        super().set_state(state)
+
+
 class Mute(Stateless):
     """An actor whose output is the payload None (a perfectly legal value on an edge: the flow layer is payload-agnostic)."""
 
